@@ -4,7 +4,7 @@
 EXTENDS SdkModels, Json, IOUtils
 Obs == JsonDeserialize(IOEnv.VERIF_OBS)
 VARIABLES Rec, verdict
-ModelOf(o) == IF o.pa = 0 THEN FixedModels[o.mi] ELSE ParamModel(o.pa, o.pb)
+ModelOf(o) == IF o.pa = 0 THEN (FixedModels \o DoubtfulModels)[o.mi] ELSE ParamModel(o.pa, o.pb)
 \* well-formedness of XML text is opaque here: a text that no XML parser takes must be rejected; junk after a complete
 \* root element is left open (a streaming reader need not look at it)
 TextVerdict(o) == IF o.after_root THEN Either ELSE MustReject
@@ -18,7 +18,7 @@ Init == /\ Rec \in ToSet(Obs)
         /\ PrintT(<<"@@PRINT@@ verdict", Rec.idx, verdict.verdict>>)
 Next == UNCHANGED <<Rec, verdict>>
 
-Inv_SdkGenerated == Rec.sdk
+Inv_SdkGenerated == Rec.accepted => Rec.sdk
 \* never any other exception than the SDK's own de-serialization error -- whatever the verdict
 Inv_OnlySdkError == Rec.outcome.o # "exception"
 \* malformed or mistyped documents are not accepted
